@@ -56,6 +56,13 @@ Next ==
   \/ \E s \in STAKERS, a \in ASSETS, o \in OPERATORS, x \in AMOUNTS, n \in NONCES, t \in TXHS :
         /\ FRESH => n \notin G.used
         /\ Do("Undelegate", [s |-> s, a |-> a, o |-> o, x |-> x, nonce |-> n, txh |-> t])
+  \/ \E s \in STAKERS, o1 \in OPERATORS, x1 \in AMOUNTS : "nat" \in ASSETS /\
+        \/ Do("MsgDelegate", [s |-> s, items |-> <<[o |-> o1, x |-> x1]>>])
+        \/ \E o2 \in OPERATORS, x2 \in AMOUNTS : Do("MsgDelegate", [s |-> s, items |-> <<[o |-> o1, x |-> x1], [o |-> o2, x |-> x2]>>])
+  \/ \E s \in STAKERS, o1 \in OPERATORS, x1 \in AMOUNTS, n \in NONCES, t \in TXHS : "nat" \in ASSETS /\ (FRESH => n \notin G.used) /\
+        \/ Do("MsgUndelegate", [s |-> s, items |-> <<[o |-> o1, x |-> x1]>>, nonce |-> n, txh |-> t])
+        \/ \E o2 \in OPERATORS, x2 \in AMOUNTS :
+              Do("MsgUndelegate", [s |-> s, items |-> <<[o |-> o1, x |-> x1], [o |-> o2, x |-> x2]>>, nonce |-> n, txh |-> t])
   \/ \E s \in STAKERS, o \in OPERATORS : Do("Associate", [s |-> s, o |-> o])
   \/ \E s \in STAKERS : Do("Dissociate", [s |-> s])
   \/ \E o \in OPERATORS, id \in SLASHIDS, infr \in 1..L.h, pw \in POWERS, f \in FACTORS :
